@@ -204,6 +204,14 @@ def run_c03(t, tier, res):
         usable = [p for p in pws if p and not formats.is_hex_literal(p) and p == p.strip("\r\n")
                   and not any(c in p for c in formats.FORBIDDEN)]
         data, _nh, _nj, _errs = formats.render(t, usable, opts["encoding"], "count", False)
+        if usable and t.chance(1, 6) and " " not in usable[0] and usable[0] == usable[0].strip():
+            # one entry seen so often that the list total is a round number: the once-seen values get probabilities such
+            # as 8e-05 or 1e-05 (str(float) writes those without a decimal point)
+            total = t.choice([12500, 25000, 50000, 100000])
+            n_lines = data.count(b"\n")
+            data = ("%d %s\n" % (max(1, total - len(usable)), usable[0])).encode(opts["encoding"]) + data
+            usable = [usable[0]] + usable
+            res.stats["count_prefixed_lists_with_round_total"] += 1
         tr = trainer.train(None, dict(opts, prefixcount=True), raw=data)
         pws = usable
         res.stats["count_prefixed_lists"] += 1
